@@ -61,7 +61,7 @@ def self_attrs(node):
     return {n.attr for n in ast.walk(node) if isinstance(n, ast.Attribute) and isinstance(n.value, ast.Name) and n.value.id == "self"}
 
 
-def shared_obligations(ctx, rule, owners=None):
+def shared_obligations(ctx, rule, owners=None, with_expressions=False):
     """Re-state, under the borrowing property's rule id, the translation-validation obligations (R3 skeleton agreement, R8 frozen templates)
     of the emitters of the given classes: the compiled form of a construct is a construct of that class too."""
     from ..core import Ctx
@@ -76,6 +76,10 @@ def shared_obligations(ctx, rule, owners=None):
     n = 0
     seen_owner = set()
     for o in sub.obligations:
+        if o.rule == "C04.R6" and with_expressions:
+            n += 1
+            ctx.ob(rule, o.where, o.ok, o.what, key=o.key, loc=o.loc, detail=o.detail)
+            continue
         if o.rule not in ("C04.R3", "C04.R7", "C04.R8"):
             continue
         owner = str(o.where).split(".")[0]
